@@ -1,7 +1,7 @@
 (** C15 - compaction preserves content.  Model: Compact.v (walk + replay on the reference map Spec.v); the
     transaction-size limit only decides where intermediate commits happen, and a commit leaves Spec content
     unchanged, so the model has no limit parameter: what it proves holds for every limit. *)
-From Bbolt Require Import Base Consts Spec SpecProofs Compact CompactProofs.
+From Bbolt Require Import Base Consts Spec SpecProofs Compact CompactProofs CompactNestedProofs.
 
 (** copying the entries of a bucket in the order the walk yields them (ascending) rebuilds exactly that bucket *)
 Theorem C15_copy_in_order_rebuilds : forall ents prefix, keys_sorted (prefix ++ ents) = true ->
@@ -14,9 +14,20 @@ Theorem C15_insert_larger_key_appends : forall p k e, keys_sorted (p ++ [(k, e)]
 Proof. exact insert_last. Qed.
 Print Assumptions C15_insert_larger_key_appends.
 
-(** C15_partial: the full statement [forall fuel src, wf_ents fuel (snd src) = true -> compact fuel src = (ENone, (0, snd src))]
-    is proved so far for one level (above) and checked by evaluation on nested examples (below: nesting, empty
-    bucket, empty value, sequences); the nested induction over paths is not yet mechanised. *)
+(** The full statement, for arbitrarily nested sources: every bucket, key, value and nested sequence of a well-formed source
+    (what the API can produce: [wf_ents]) is reproduced exactly; the destination's root sequence stays 0 (Compact does not
+    copy the root's own sequence).  [seqs_ok]: nested sequences are below 2^64 - always true of the Go uint64 field; the
+    reference map's numbers are unbounded, and without the bound the statement is false ([compact_rebuilds_iff]). *)
+Theorem C15_compact_rebuilds : forall fuel src,
+  wf_ents fuel (snd src) = true -> seqs_ok fuel (snd src) = true -> compact fuel src = (ENone, (0, snd src)).
+Proof. exact compact_rebuilds. Qed.
+Print Assumptions C15_compact_rebuilds.
+
+Theorem C15_sequence_bound_is_exactly_what_is_needed : forall fuel src, wf_ents fuel (snd src) = true ->
+  (compact fuel src = (ENone, (0, snd src)) <-> seqs_ok fuel (snd src) = true).
+Proof. exact compact_rebuilds_iff. Qed.
+Print Assumptions C15_sequence_bound_is_exactly_what_is_needed.
+
 Theorem C15_nested_example :
   let src : bucket := (0, [([97], Sub 7 [([107; 49], Val []); ([110], Sub 2 [([120], Val [1; 2; 3])]); ([122], Val [9])]);
                            ([98], Sub 0 [])]) in
